@@ -16,18 +16,22 @@ CONSTANTS C,          \* channelCapacity
           NOffer,     \* offers per producer
           NTake,      \* take/poll calls per consumer
           Kinds,      \* consumer call kinds used: subset of {"take", "poll", "ttake"} (Take, Poll, TakeWithTimeout / <-GetChannel() with the caller's timer)
+          WithWaiters, \* BOOLEAN: model consumers BLOCKED in the channel receive (Take / timed take on an empty channel): a send hands the
+                       \*   item straight to a waiting receiver without using a buffer slot (Go channel rendezvous)
+          OneShot,     \* BOOLEAN: a consumer makes calls only until it has received one result (a goroutine that calls Take() once)
+          LoaderFreeOnly, \* BOOLEAN variant: a loader pass moves at most max(1, free slots) items (strands blocked takers); FALSE: the code
           WithClose,  \* BOOLEAN: a closer thread exists
           GuardedClose \* TRUE: notifyWorkers runs under the read lock and re-checks closed, the loader re-checks closed under
                        \*       the lock (the fixed code); FALSE: the pinned code (flag checked once, outside the lock)
 
 VARIABLES ch, pool, wake, closed, wakeClosed, chClosed, lock,
-          lpc, lval,           \* loader
+          lpc, lval, lbudget,  \* loader (lbudget: pushes left in this pass - only the LoaderFreeOnly variant bounds it)
           ppc, pidx, pres,     \* producers
           cpc, cidx, cres, ckind, \* consumers
           xpc,                 \* closer
           panicked
 
-vars == <<ch, pool, wake, closed, wakeClosed, chClosed, lock, lpc, lval,
+vars == <<ch, pool, wake, closed, wakeClosed, chClosed, lock, lpc, lval, lbudget,
           ppc, pidx, pres, cpc, cidx, cres, ckind, xpc, panicked>>
 
 Val(p, i) == [k |-> "val", p |-> p, i |-> i]
@@ -37,7 +41,7 @@ Init ==
   /\ ch = <<>> /\ pool = <<>> /\ wake = 0
   /\ closed = FALSE /\ wakeClosed = FALSE /\ chClosed = FALSE
   /\ lock = "free"
-  /\ lpc = "idle" /\ lval = <<>>
+  /\ lpc = "idle" /\ lval = <<>> /\ lbudget = 0
   /\ ppc = [p \in Producers |-> "start"] /\ pidx = [p \in Producers |-> 1]
   /\ pres = [p \in Producers |-> <<>>]
   /\ cpc = [c \in Consumers |-> "start"] /\ cidx = [c \in Consumers |-> 1]
@@ -50,42 +54,49 @@ Init ==
 OfferLock(p) ==
   /\ ppc[p] = "start" /\ pidx[p] <= NOffer /\ lock = "free"
   /\ lock' = p /\ ppc' = [ppc EXCEPT ![p] = "locked"]
-  /\ UNCHANGED <<ch, pool, wake, closed, wakeClosed, chClosed, lpc, lval, pidx, pres,
+  /\ UNCHANGED <<ch, pool, wake, closed, wakeClosed, chClosed, lpc, lval, lbudget, pidx, pres,
                  cpc, cidx, cres, ckind, xpc, panicked>>
 
+Waiting == IF WithWaiters THEN {c \in Consumers : cpc[c] = "waiting"} ELSE {}
+\* a non-blocking channel send succeeds when the buffer has room OR a receiver is waiting (then the value goes to that receiver)
+HandOff(w, v) == cres' = [cres EXCEPT ![w] = Append(@, v)] /\ cpc' = [cpc EXCEPT ![w] = "start"]
 OfferBody(p) ==
   /\ ppc[p] = "locked"
   /\ LET v == Val(p, pidx[p]) IN
-     IF closed THEN
+     \/ /\ closed
         /\ pres' = [pres EXCEPT ![p] = Append(@, "closed")]
+        /\ UNCHANGED <<ch, pool, wake, cpc, cres>>
+     \/ /\ ~closed /\ Len(pool) = 0 /\ Waiting # {}
+        /\ \E w \in Waiting : HandOff(w, v)
+        /\ pres' = [pres EXCEPT ![p] = Append(@, "ok")]
         /\ UNCHANGED <<ch, pool, wake>>
-     ELSE IF Len(pool) = 0 /\ Len(ch) < C THEN
+     \/ /\ ~closed /\ Len(pool) = 0 /\ Waiting = {} /\ Len(ch) < C
         /\ ch' = Append(ch, v)
         /\ pres' = [pres EXCEPT ![p] = Append(@, "ok")]
-        /\ UNCHANGED <<pool, wake>>
-     ELSE IF Len(pool) >= B THEN
+        /\ UNCHANGED <<pool, wake, cpc, cres>>
+     \/ /\ ~closed /\ ~(Len(pool) = 0 /\ (Waiting # {} \/ Len(ch) < C)) /\ Len(pool) >= B
         /\ pres' = [pres EXCEPT ![p] = Append(@, "full")]
-        /\ UNCHANGED <<ch, pool, wake>>
-     ELSE
+        /\ UNCHANGED <<ch, pool, wake, cpc, cres>>
+     \/ /\ ~closed /\ ~(Len(pool) = 0 /\ (Waiting # {} \/ Len(ch) < C)) /\ Len(pool) < B
         /\ pool' = Append(pool, v)
         /\ wake' = 1
         /\ pres' = [pres EXCEPT ![p] = Append(@, "ok")]
-        /\ UNCHANGED ch
+        /\ UNCHANGED <<ch, cpc, cres>>
   /\ pidx' = [pidx EXCEPT ![p] = @ + 1]
   /\ ppc' = [ppc EXCEPT ![p] = "bodydone"]
-  /\ UNCHANGED <<lock, closed, wakeClosed, chClosed, lpc, lval, cpc, cidx, cres, ckind, xpc, panicked>>
+  /\ UNCHANGED <<lock, closed, wakeClosed, chClosed, lpc, lval, lbudget, cidx, ckind, xpc, panicked>>
 
 \* the deferred Unlock (the item sent into the channel is visible to consumers before this step)
 OfferUnlock(p) ==
   /\ ppc[p] = "bodydone"
   /\ lock' = "free" /\ ppc' = [ppc EXCEPT ![p] = "start"]
-  /\ UNCHANGED <<ch, pool, wake, closed, wakeClosed, chClosed, lpc, lval, pidx, pres,
+  /\ UNCHANGED <<ch, pool, wake, closed, wakeClosed, chClosed, lpc, lval, lbudget, pidx, pres,
                  cpc, cidx, cres, ckind, xpc, panicked>>
 
 \* ---------------------------------------------------------------- consumers
 \* kind: "take" (blocking) or "poll"
 ConsStart(c, k) ==
-  /\ cpc[c] = "start" /\ cidx[c] <= NTake
+  /\ cpc[c] = "start" /\ cidx[c] <= NTake /\ (OneShot => cres[c] = <<>>)
   /\ ckind' = [ckind EXCEPT ![c] = k]
   /\ IF closed
        THEN /\ cres' = [cres EXCEPT ![c] = Append(@, Tag("closed"))]
@@ -93,7 +104,7 @@ ConsStart(c, k) ==
             /\ UNCHANGED cpc
        ELSE /\ cpc' = [cpc EXCEPT ![c] = "checked"]
             /\ UNCHANGED <<cres, cidx>>
-  /\ UNCHANGED <<ch, pool, wake, closed, wakeClosed, chClosed, lock, lpc, lval,
+  /\ UNCHANGED <<ch, pool, wake, closed, wakeClosed, chClosed, lock, lpc, lval, lbudget,
                  ppc, pidx, pres, xpc, panicked>>
 
 \* GuardedClose: RLock; re-check; offer; RUnlock is one step: no writer can interleave and readers' notifies commute
@@ -109,7 +120,7 @@ ConsNotify(c) ==
        ELSE /\ wake' = 1
             /\ cpc' = [cpc EXCEPT ![c] = "notified"]
             /\ UNCHANGED panicked
-  /\ UNCHANGED <<ch, pool, closed, wakeClosed, chClosed, lock, lpc, lval,
+  /\ UNCHANGED <<ch, pool, closed, wakeClosed, chClosed, lock, lpc, lval, lbudget,
                  ppc, pidx, pres, cidx, cres, ckind, xpc>>
 
 ConsRecv(c) ==
@@ -125,86 +136,105 @@ ConsRecv(c) ==
      \/ /\ ckind[c] = "ttake" /\ ~chClosed            \* the timer wins the select (possible even when an item is ready)
         /\ UNCHANGED <<cres, ch>>
   /\ cpc' = [cpc EXCEPT ![c] = "start"]
-  /\ UNCHANGED <<cidx, pool, wake, closed, wakeClosed, chClosed, lock, lpc, lval,
+  /\ UNCHANGED <<cidx, pool, wake, closed, wakeClosed, chClosed, lock, lpc, lval, lbudget,
                  ppc, pidx, pres, ckind, xpc, panicked>>
+
+\* a blocking take (or a timed one) that finds the channel empty blocks in the receive: from then on only a sender's hand-off, the
+\* timer (timed take) or the close of the channel completes the call
+ConsWait(c) ==
+  /\ WithWaiters /\ cpc[c] = "notified" /\ ckind[c] \in {"take", "ttake"} /\ Len(ch) = 0 /\ ~chClosed
+  /\ cpc' = [cpc EXCEPT ![c] = "waiting"]
+  /\ UNCHANGED <<ch, pool, wake, closed, wakeClosed, chClosed, lock, lpc, lval, lbudget, ppc, pidx, pres, cidx, cres, ckind, xpc, panicked>>
+ConsWaitEnd(c) ==
+  /\ cpc[c] = "waiting"
+  /\ \/ ckind[c] = "ttake" /\ ~chClosed /\ UNCHANGED cres                                        \* the timer fires
+     \/ chClosed /\ cres' = [cres EXCEPT ![c] = Append(@, IF ckind[c] = "take" THEN Tag("closed") ELSE Tag("zero"))]
+  /\ cpc' = [cpc EXCEPT ![c] = "start"]
+  /\ UNCHANGED <<ch, pool, wake, closed, wakeClosed, chClosed, lock, lpc, lval, lbudget, ppc, pidx, pres, cidx, ckind, xpc, panicked>>
 
 \* ---------------------------------------------------------------- loader
 LoaderWake ==
   /\ lpc = "idle"
   /\ \/ /\ wake = 1 /\ wake' = 0 /\ lpc' = "woken"
      \/ /\ wake = 0 /\ wakeClosed /\ lpc' = "exited" /\ UNCHANGED wake
-  /\ UNCHANGED <<ch, pool, closed, wakeClosed, chClosed, lock, lval,
+  /\ UNCHANGED <<ch, pool, closed, wakeClosed, chClosed, lock, lval, lbudget,
                  ppc, pidx, pres, cpc, cidx, cres, ckind, xpc, panicked>>
 
 LoaderCheck ==
   /\ lpc = "woken"
   /\ lpc' = IF closed THEN "exited" ELSE "checked"
-  /\ UNCHANGED <<ch, pool, wake, closed, wakeClosed, chClosed, lock, lval,
+  /\ UNCHANGED <<ch, pool, wake, closed, wakeClosed, chClosed, lock, lval, lbudget,
                  ppc, pidx, pres, cpc, cidx, cres, ckind, xpc, panicked>>
 
 LoaderLock ==
   /\ lpc = "checked" /\ lock = "free"
   /\ IF GuardedClose /\ closed
-       THEN lpc' = "exited" /\ UNCHANGED lock                  \* re-check under the lock: unlock and leave
-       ELSE lock' = "loader" /\ lpc' = "locked"
+       THEN lpc' = "exited" /\ UNCHANGED <<lock, lbudget>>      \* re-check under the lock: unlock and leave
+       ELSE /\ lock' = "loader" /\ lpc' = "locked"
+            /\ lbudget' = IF LoaderFreeOnly THEN (IF C - Len(ch) < 1 THEN 1 ELSE C - Len(ch)) ELSE 0
   /\ UNCHANGED <<ch, pool, wake, closed, wakeClosed, chClosed, lval,
                  ppc, pidx, pres, cpc, cidx, cres, ckind, xpc, panicked>>
 
+\* (the LoaderFreeOnly variant stops the pass when its budget is used up, as if the pool were empty)
 LoaderPoll ==
   /\ lpc = "locked"
-  /\ IF Len(pool) > 0
+  /\ IF Len(pool) > 0 /\ (LoaderFreeOnly => lbudget > 0)
        THEN /\ lval' = <<Head(pool)>> /\ pool' = Tail(pool) /\ lpc' = "polled"
             /\ UNCHANGED lock
        ELSE /\ lock' = "free" /\ lpc' = "unlocked" /\ UNCHANGED <<lval, pool>>
-  /\ UNCHANGED <<ch, wake, closed, wakeClosed, chClosed,
+  /\ UNCHANGED <<ch, wake, closed, wakeClosed, chClosed, lbudget,
                  ppc, pidx, pres, cpc, cidx, cres, ckind, xpc, panicked>>
 
 LoaderPush ==
   /\ lpc = "polled"
-  /\ IF chClosed THEN
+  /\ \/ /\ chClosed
         /\ panicked' = panicked \cup {"loader"} /\ lpc' = "dead"
-        /\ UNCHANGED <<ch, pool, lval, lock>>
-     ELSE IF Len(ch) < C THEN
-        /\ ch' = Append(ch, lval[1]) /\ lval' = <<>> /\ lpc' = "locked"
-        /\ UNCHANGED <<pool, lock, panicked>>
-     ELSE
+        /\ UNCHANGED <<ch, pool, lval, lbudget, lock, cpc, cres>>
+     \/ /\ ~chClosed /\ Waiting # {}
+        /\ \E w \in Waiting : HandOff(w, lval[1])
+        /\ lval' = <<>> /\ lpc' = "locked" /\ lbudget' = IF LoaderFreeOnly THEN lbudget - 1 ELSE lbudget
+        /\ UNCHANGED <<ch, pool, lock, panicked>>
+     \/ /\ ~chClosed /\ Waiting = {} /\ Len(ch) < C
+        /\ ch' = Append(ch, lval[1]) /\ lval' = <<>> /\ lpc' = "locked" /\ lbudget' = IF LoaderFreeOnly THEN lbudget - 1 ELSE lbudget
+        /\ UNCHANGED <<pool, lock, panicked, cpc, cres>>
+     \/ /\ ~chClosed /\ Waiting = {} /\ Len(ch) >= C
         /\ pool' = <<lval[1]>> \o pool /\ lval' = <<>>
         /\ lock' = "free" /\ lpc' = "unlocked"
-        /\ UNCHANGED <<ch, panicked>>
+        /\ UNCHANGED <<ch, panicked, cpc, cres, lbudget>>
   /\ UNCHANGED <<wake, closed, wakeClosed, chClosed,
-                 ppc, pidx, pres, cpc, cidx, cres, ckind, xpc>>
+                 ppc, pidx, pres, cidx, ckind, xpc>>
 
 LoaderSleep ==
   /\ lpc = "unlocked" /\ lpc' = "idle"
-  /\ UNCHANGED <<ch, pool, wake, closed, wakeClosed, chClosed, lock, lval,
+  /\ UNCHANGED <<ch, pool, wake, closed, wakeClosed, chClosed, lock, lval, lbudget,
                  ppc, pidx, pres, cpc, cidx, cres, ckind, xpc, panicked>>
 
 \* ---------------------------------------------------------------- closer
 CloseLock ==
   /\ xpc = "start" /\ lock = "free" /\ lock' = "closer" /\ xpc' = "locked"
-  /\ UNCHANGED <<ch, pool, wake, closed, wakeClosed, chClosed, lpc, lval,
+  /\ UNCHANGED <<ch, pool, wake, closed, wakeClosed, chClosed, lpc, lval, lbudget,
                  ppc, pidx, pres, cpc, cidx, cres, ckind, panicked>>
 CloseFlag ==
   /\ xpc = "locked" /\ closed' = TRUE /\ xpc' = "flagged"
-  /\ UNCHANGED <<ch, pool, wake, wakeClosed, chClosed, lock, lpc, lval,
+  /\ UNCHANGED <<ch, pool, wake, wakeClosed, chClosed, lock, lpc, lval, lbudget,
                  ppc, pidx, pres, cpc, cidx, cres, ckind, panicked>>
 CloseWake ==
   /\ xpc = "flagged" /\ wakeClosed' = TRUE /\ xpc' = "wakeclosed"
-  /\ UNCHANGED <<ch, pool, wake, closed, chClosed, lock, lpc, lval,
+  /\ UNCHANGED <<ch, pool, wake, closed, chClosed, lock, lpc, lval, lbudget,
                  ppc, pidx, pres, cpc, cidx, cres, ckind, panicked>>
 CloseCh ==
   /\ xpc = "wakeclosed" /\ chClosed' = TRUE /\ lock' = "free" /\ xpc' = "done"
-  /\ UNCHANGED <<ch, pool, wake, closed, wakeClosed, lpc, lval,
+  /\ UNCHANGED <<ch, pool, wake, closed, wakeClosed, lpc, lval, lbudget,
                  ppc, pidx, pres, cpc, cidx, cres, ckind, panicked>>
 
 Next ==
   \/ \E p \in Producers : OfferLock(p) \/ OfferBody(p) \/ OfferUnlock(p)
-  \/ \E c \in Consumers : (\E k \in Kinds : ConsStart(c, k)) \/ ConsNotify(c) \/ ConsRecv(c)
+  \/ \E c \in Consumers : (\E k \in Kinds : ConsStart(c, k)) \/ ConsNotify(c) \/ ConsRecv(c) \/ ConsWait(c) \/ ConsWaitEnd(c)
   \/ LoaderWake \/ LoaderCheck \/ LoaderLock \/ LoaderPoll \/ LoaderPush \/ LoaderSleep
   \/ CloseLock \/ CloseFlag \/ CloseWake \/ CloseCh
 
 Spec == Init /\ [][Next]_vars
-FairSpec == Init /\ [][Next]_vars /\ (\A p \in Producers : WF_vars(OfferLock(p) \/ OfferBody(p) \/ OfferUnlock(p))) /\ (\A c \in Consumers : WF_vars((\E k \in Kinds : ConsStart(c, k)) \/ ConsNotify(c) \/ ConsRecv(c))) /\ WF_vars(LoaderWake \/ LoaderCheck \/ LoaderLock \/ LoaderPoll \/ LoaderPush \/ LoaderSleep)
+FairSpec == Init /\ [][Next]_vars /\ (\A p \in Producers : WF_vars(OfferLock(p) \/ OfferBody(p) \/ OfferUnlock(p))) /\ (\A c \in Consumers : WF_vars((\E k \in Kinds : ConsStart(c, k)) \/ ConsNotify(c) \/ ConsRecv(c) \/ ConsWait(c) \/ ConsWaitEnd(c))) /\ WF_vars(LoaderWake \/ LoaderCheck \/ LoaderLock \/ LoaderPoll \/ LoaderPush \/ LoaderSleep)
 
 \* ---------------------------------------------------------------- properties
 Accepted == UNION {{Val(p, i) : i \in {j \in 1..Len(pres[p]) : pres[p][j] = "ok"}} : p \in Producers}
@@ -216,6 +246,7 @@ InFlight == {ch[i] : i \in 1..Len(ch)} \cup {pool[i] : i \in 1..Len(pool)} \cup 
 Inv_NoPanic == panicked = {}
 Inv_NoLoaderPanic == "loader" \notin panicked          \* the library goroutine: a panic there kills the process
 Inv_NoUserPanic == panicked \subseteq {"loader"}
+Inv_WaitersOnlyWhenEmpty == Waiting # {} => Len(ch) = 0      \* a receiver blocks only on an empty channel; a send never buffers past a waiting receiver
 Inv_Bound == Len(ch) <= C /\ Len(pool) + Len(lval) <= B /\ Len(ch) + Len(pool) + Len(lval) <= C + B
 Inv_Conservation == Accepted = Delivered \cup InFlight
 Inv_NoDup ==
